@@ -129,6 +129,21 @@ def _tag_view(interp, args, kwargs):
     return SV(ty, f(args[0].t, _s(interp, args[1])))
 
 
+def _ulist(name, n):
+    """uninterpreted list-valued function of n object/bool arguments (deterministic callee named in a caller's contract)"""
+    def f(interp, args, kwargs):
+        from pyvc.vals import TList, TRef
+        ty = TList(TRef("Issue"))
+        ctx = interp.ctx
+        ts = []
+        for a in args:
+            t = ctx.type_of(a)
+            ts.append(ctx.term(a, t))
+        fn = z3.Function(name, *[x.sort() for x in ts], sort_of(ty))
+        return ctx.wrap(fn(*ts), ty).sym
+    return f
+
+
 def _empty_str_set(interp, args, kwargs):
     return SV(TSet(STR), z3.K(z3.StringSort(), z3.BoolVal(False)))
 
@@ -257,7 +272,7 @@ if z3 is not None:
         "json.dump": _json_dump, "time.time": _time,
         "file_key_of": _ufun("file_key_of", 2), "backup_path_of": _ufun("backup_path_of", 3), "empty_str_set": _empty_str_set,
         "datetime.now": lambda interp, args, kwargs: Opaque("now", fresh=True),
-        "tag_view": _tag_view,
+        "tag_view": _tag_view, "basic_issues_of": _ulist("basic_issues_of", 3), "full_issues_of": _ulist("full_issues_of", 2),
         "str.replace": _str_replace, "replace_all": _str_replace,
         "forall_str": _forall_str, "dirname_of": _dirname_model, "commonpath2": _ufun("commonpath2", 2),
         "os.path.commonpath": lambda interp, args, kwargs: _ufun("commonpath2", 2)(interp, list(interp.iter_items_concrete(args[0])), {}), "basename_of": _basename_model, "original_path_of": _ufun("original_path_of", 2),
